@@ -139,10 +139,12 @@ def run(ctx):
             perm = [int(x) for x in rng.permutation(len(c["records"]))]
             pr = pg.run_impl(dict(cd, records=[c["records"][j] for j in perm]))["result"]
             ctx.supporting["permuted_runs"] = ctx.supporting.get("permuted_runs", 0) + 1
+            pkept_opts = expected_kept(dict(c, records=[c["records"][j] for j in perm]))
+            ambiguous = any(set(perm[q] for q in pk) != set(kept) for pk in pkept_opts)   # tie between most frequent time steps
             if isinstance(pr, str):
-                ctx.violation("order-independence", dict(case=cd, permutation=perm, permuted="err"), seam="hvsrpy.process")
+                if not ambiguous:
+                    ctx.violation("order-independence", dict(case=cd, permutation=perm, permuted="err"), seam="hvsrpy.process")
             else:
-                pkept_opts = expected_kept(dict(c, records=[c["records"][j] for j in perm]))
                 okp = False
                 for pk in pkept_opts:
                     if len(pk) == len(pr):
